@@ -537,7 +537,9 @@ pub fn respell(p: &str, k: usize) -> String {
     match k % 4 {
         0 => p.to_string(),
         1 => format!("./{}", p),
-        2 => format!("zz/../{}", p),
+        // one level up, or (for names of odd length) two levels at a time
+        2 if p.len() % 2 == 0 => format!("zz/../{}", p),
+        2 => format!("zz/yy/../../{}", p),
         _ => match p.rfind('/') {
             Some(i) => format!("{}//{}", &p[..i], &p[i + 1..]),
             None => format!(".//{}", p),
